@@ -144,4 +144,144 @@ def vulnerableAlpine (p : Pkg) (v : Vuln) : Out :=
   else if !VerApk.valid v.fixed then .ok false
   else .ok (decide (VerApk.compare p.version v.fixed = .lt))
 
+/-! ### OSV language matchers: python, ruby (gem), java (maven)
+
+The three `Vulnerable` functions are the same text up to the version type:
+`url.ParseQuery(FixedInVersion)` yields `introduced`, `fixed`, `lastAffected`;
+they differ only in the parser and comparator, which are parameters here
+(`Scheme`).  The schemes themselves are property C12's subject. -/
+
+/-- A version scheme: its parser (`none` = error) and three-way comparison. -/
+structure Scheme (V : Type) where
+  parse : Str → Option V
+  cmp : V → V → Ordering
+
+def hexDigit (c : Char) : Option Nat :=
+  if isDigit c then some (c.toNat - '0'.toNat)
+  else if decide ('a'.toNat ≤ c.toNat) && decide (c.toNat ≤ 'f'.toNat) then some (c.toNat - 'a'.toNat + 10)
+  else if decide ('A'.toNat ≤ c.toNat) && decide (c.toNat ≤ 'F'.toNat) then some (c.toNat - 'A'.toNat + 10)
+  else none
+
+/-- `url.QueryUnescape`: `+` is a space, `%XX` a byte; a `%` not followed by
+    two hex digits is an error. -/
+def unescape : Str → Option Str
+  | [] => some []
+  | '%' :: a :: b :: rest =>
+    match hexDigit a, hexDigit b, unescape rest with
+    | some x, some y, some r => some (Char.ofNat (16 * x + y) :: r)
+    | _, _, _ => none
+  | '%' :: _ => none
+  | '+' :: rest => (unescape rest).map (' ' :: ·)
+  | c :: rest => (unescape rest).map (c :: ·)
+
+/-- `strings.Split(s, sep)` for a one-byte separator. -/
+def splitOn (sep : Char) : Str → List Str
+  | [] => [[]]
+  | c :: cs =>
+    match splitOn sep cs with
+    | [] => [[c]]            -- unreachable
+    | p :: ps => if c = sep then [] :: p :: ps else (c :: p) :: ps
+
+/-- One `key=value` setting of `url.ParseQuery`: `none` = error,
+    `some none` = skipped (empty). -/
+def parsePair (piece : Str) : Option (Option (Str × Str)) :=
+  if piece.contains ';' then none                  -- "invalid semicolon separator in query"
+  else if piece = [] then some none
+  else
+    let (k, v) := match cut '=' piece with
+      | some (k, v) => (k, v)
+      | none => (piece, [])
+    match unescape k, unescape v with
+    | some k', some v' => some (some (k', v'))
+    | _, _ => none
+
+/-- `url.ParseQuery`: all settings in order; any error makes the whole call
+    an error for the matchers (`if err != nil { return false, err }`). -/
+def parseQuery (s : Str) : Option (List (Str × Str)) :=
+  (splitOn '&' s).foldr (fun piece acc =>
+    match parsePair piece, acc with
+    | some (some kv), some l => some (kv :: l)
+    | some none, some l => some l
+    | _, _ => none) (some [])
+
+/-- `Values.Get`: the first value of the key, or `""`. -/
+def qget (m : List (Str × Str)) (k : Str) : Str :=
+  match m.find? (fun kv => kv.1 = k) with
+  | some kv => kv.2
+  | none => []
+
+def kIntroduced : Str := "introduced".toList
+def kFixed : Str := "fixed".toList
+def kLastAffected : Str := "lastAffected".toList
+
+/-- python/matcher.go, ruby/matcher.go, java/matcher.go. -/
+def vulnerableOsv {V : Type} (S : Scheme V) (p : Pkg) (v : Vuln) : Out :=
+  if v.fixed = [] then .ok true
+  else
+    match S.parse p.version with
+    | none => .err                                     -- package version does not parse
+    | some rv =>
+      match parseQuery v.fixed with
+      | none => .err
+      | some q =>
+        let introduced := qget q kIntroduced
+        let belowIntroduced : Option Out :=
+          if introduced ≠ [] then
+            match S.parse introduced with
+            | none => some .err
+            | some iv => if S.cmp rv iv = .lt then some (.ok false) else none
+          else none
+        match belowIntroduced with
+        | some o => o
+        | none =>
+          let fixedVersion := qget q kFixed
+          let lastAffected := qget q kLastAffected
+          if fixedVersion ≠ [] then
+            match S.parse fixedVersion with
+            | none => .err
+            | some fv => .ok (decide (S.cmp rv fv = .lt))          -- `rv.Compare(fv) < 0`
+          else if lastAffected ≠ [] then
+            match S.parse lastAffected with
+            | none => .err
+            | some la => .ok (decide (S.cmp rv la ≠ .gt))          -- `rv.Compare(la) <= 0`
+          else .ok true                                            -- "vulnerable, by default"
+
+/-! ### The database-side range test (gobin, nodejs; rhcc as a pre-filter) -/
+
+/-- `claircore.Version`: kind and ten int32 components. -/
+structure NVersion where
+  kind : Str
+  v : List Int          -- ten components
+  deriving DecidableEq, Repr
+
+/-- `Version.Compare`: kinds compared as strings, then the components in order. -/
+def NVersion.compare (a b : NVersion) : Ordering :=
+  if a.kind ≠ b.kind then strCmp a.kind b.kind
+  else lexCmp intCmp a.v b.v
+
+/-- `Range`: half-open `[Lower, Upper)`; `none` = nil receiver. -/
+structure NRange where
+  lower : NVersion
+  upper : NVersion
+  deriving DecidableEq, Repr
+
+/-- `Range.Contains`: `r.Lower.Compare(v) != 1 && r.Upper.Compare(v) == 1`. -/
+def rangeContains (r : Option NRange) (v : NVersion) : Bool :=
+  match r with
+  | none => false
+  | some r => decide (r.lower.compare v ≠ .gt) && decide (r.upper.compare v = .gt)
+
+/-- gobin/matcher.go, nodejs/matcher.go: `Vulnerable` is a no-op; the
+    matchers are `VersionFilter`s with `VersionAuthoritative() == true`. -/
+def vulnerableNoop (_ : Pkg) (_ : Vuln) : Out := .ok false
+
+/-- internal/matcher/controller.go `Match`, for one (record, advisory) pair
+    the store returned: with an authoritative version filter the database's
+    verdict (`vulnerable_range @> version`) stands, otherwise `Vulnerable`
+    decides (an error fails the whole match). -/
+def controllerKeeps (versionFilter authoritative : Bool) (dbSideHit : Bool) (vulnerable : Out) : Out :=
+  if versionFilter && !dbSideHit then .ok false       -- not returned by the query at all
+  else if versionFilter && authoritative then .ok true
+  else vulnerable
+
 end ClairModel.Matchers
